@@ -170,6 +170,7 @@ def main() -> int:
             broken.append(f"model-vs-spec runtime re-check of the theorem failed on {len(ctx.internal)} case(s)")
         path = core.write_replay(prop, "broken", {
             "property": prop, "kind": "no-failing-input-found", "broken": broken,
+            "theorems_not_checking": _failing_theorems(ctx.build_log) if not ok_prf else [],
             "theorems": core.theorem_names(prop), "build_log_tail": ctx.build_log[-3000:],
             "first_mismatch": (ctx.corr_mismatch or ctx.internal or [None])[0]})
         print(f"VIOLATION property={prop} replay={path} no-failing-input-found")
@@ -179,6 +180,30 @@ def main() -> int:
           f"theorems={len(obligations)} corr_mismatch={len(ctx.corr_mismatch)} candidates={len(ctx.spec_viol)} "
           f"known_hits={sum(ctx.known_hits.values())} exit={code}")
     return code
+
+
+def _failing_theorems(build_log: str) -> list:
+    """names of the theorems/definitions in which `lake build` reported an error (file:line of each `error:` mapped to
+    the nearest preceding declaration of that file)"""
+    import re
+    out = []
+    for m in re.finditer(r"error: ([^\s:]+\.lean):(\d+):\d+", build_log):
+        path, line = m.group(1), int(m.group(2))
+        full = path if os.path.isabs(path) else os.path.join(core.LEAN_DIR, path)
+        name = None
+        try:
+            for i, l in enumerate(open(full, encoding="utf-8").read().splitlines(), 1):
+                if i > line:
+                    break
+                d = re.match(r"\s*(?:private\s+|protected\s+)?(?:theorem|lemma|def|example|instance|abbrev)\s+([^\s:({\[]+)", l)
+                if d:
+                    name = d.group(1)
+        except OSError:
+            pass
+        entry = f"{name or '?'} ({os.path.relpath(full, core.LEAN_DIR)}:{line})"
+        if entry not in out:
+            out.append(entry)
+    return out
 
 
 if __name__ == "__main__":
